@@ -4,6 +4,7 @@ import ScVerif.C08.Subscribe
 import ScVerif.C08.Shared
 import ScVerif.C08.SubscribeMany
 import ScVerif.C08.SubscribeSend
+import ScVerif.C08.PipeBus
 import ScVerif.C08.Booking
 /-! Driver handler for C08.
 
@@ -240,13 +241,16 @@ def nondecreasing : List Nat → Bool
   | _ => true
 
 /-- The `mpull` loop: before write number `j` the subscribers with `joinAt = j` join the bus (their seed is
-taken from the contents at that moment); the write's events go, one object each, through `deliver`. -/
+taken from the contents at that moment); the write's events go, one object each, through BOTH fan-out models:
+`deliver` (forwarding turns on the shared object, `Shared.lean`) and `pbusStep` (`PipeBus.lean`: offered to every
+subscriber's machine, then - backpressure - each forwarder takes and the consumer receives at once).  The
+answer is `!models-differ` should the two ever disagree. -/
 def mpullLoop (E : Option (Option String → Option String → Bool)) (cfgs : List MSubCfg) :
-    Nat → List (String × String) → List (SubOpts String String × List SChange) → List (List String) →
+    Nat → List (String × String) → List (SubOpts String String × PCfg String String) → List (List String) →
     List (Act String String) → List (List String)
   | j, items, bus, acc, acts =>
     let joining := cfgs.filter (fun c => c.joinAt = j)
-    let bus := bus ++ joining.map (fun c => (c.sub, []))
+    let bus := joining.foldl (fun b c => pbusStep E b (.join c.sub)) bus
     let acc := acc ++ joining.map (fun c =>
       ["seed=" ++ showChanges (if c.updatesOnly then [] else
         (seedFrom 0 (sortById (itemSlice c.sub.pred items))).map (maskChange c.sub.proj))])
@@ -254,14 +258,20 @@ def mpullLoop (E : Option (Option String → Option String → Bool)) (cfgs : Li
     | [] => acc
     | a :: as =>
       let r := stepAct 0 items a
-      let bus' := r.2.foldl (deliver E) (bus.map (fun so => (so.1, [])))
-      let toks := bus'.map (fun so =>
+      let before := bus.map (fun sc => sc.2.delivered.length)
+      let ks := List.range bus.length
+      let bus' := r.2.foldl (fun b c =>
+        ks.foldl (fun b k => pbusStep E (pbusStep E b (.move k .take)) (.move k .deliver)) (pbusStep E b (.publish c))) bus
+      let viaTurns := r.2.foldl (deliver E) (bus.map (fun sc => (sc.1, [])))
+      let sent := List.zipWith (fun sc n => sc.2.delivered.drop n) bus' before
+      let agree := sent == viaTurns.map (·.2)
+      let toks := List.zipWith (fun sc ds =>
         let ev := match r.2 with
           | [] => (match a with | .op _ => "fail" | _ => "drop")
-          | _ => match so.2.map zeroTime with
+          | _ => match ds.map zeroTime with
             | [] => "drop"
             | ds => ";".intercalate (ds.map showChange)
-        ev ++ "@" ++ listOf so.1.pred so.1.proj r.1)
+        (if agree then ev else "!models-differ") ++ "@" ++ listOf sc.1.pred sc.1.proj r.1) bus' sent
       mpullLoop E cfgs (j + 1) r.1 bus' (List.zipWith (fun l t => l ++ [t]) acc toks) as
 
 def handleMPull? (e n : String) (rest : List String) : Option String := do
